@@ -140,6 +140,8 @@ def generate(contract):
         it = Interp(ctx, g, module=fn.module, loops=contract.loops, exc_parents=exc_parents, fnname=fn.ref, module_names=modnames, exact=getattr(contract, 'exact', False),
                     unroll_while=getattr(contract, 'unroll_while', 0))
         ctx.interp = it
+        it.local_repr = dict(getattr(contract, 'local_repr', None) or {})
+        it.sym_unpack = bool(getattr(contract, 'sym_unpack', False))
         it.index_loops(fn.node)
         try:
             if hasattr(contract, 'body'):
